@@ -72,9 +72,8 @@ theorem tracker_indexes_agree (h : List (Owner × Snapshot)) :
 
 /-- **Batches are minimal.** After any history, the batches of the next `syncOwner` call never rewrite an
 address with the value the table already holds and never delete an address the table does not hold.
-(The second half is load-bearing on a real kernel: the generic batch delete stops at the first missing key
-and `BpfMapBatchDelete` swallows that `ErrKeyNotExist`, so keys listed after a missing one would silently
-survive. The first half is an economy only.) -/
+(Both halves are an economy: since fix 3beb53a `BpfMapBatchDelete` continues past a missing key, so deleting
+an absent key is harmless; the check reports it as bookkeeping drift only.) -/
 theorem batches_minimal (h : List (Owner × Snapshot)) (o : Owner) (s : Snapshot) (t' : Tracker) (em : Emit)
     (hsync : syncOwner (runSync TK.empty h).t o s = some (t', em)) :
     (∀ p ∈ em.ups, alLookup p.1 (runSync TK.empty h).K ≠ some p.2) ∧
